@@ -1,11 +1,16 @@
 import KoordVerif.Common.Proto
 import KoordVerif.Model.C14
+import KoordVerif.Model.C14Entry
 /-
 Driver for C14.  A case is a history on one plugin instance:
   rule node <pct>      node meta callback, annotation "<pct/100>" (pct > 0) or absent (pct = -100)
   rule nodebad         node meta callback with an invalid annotation
   rule slo <0|1>       node SLO callback (1 = CFS quota enabled)
   pod <be> <hasSpec> <n> (<req> <lim> <mem>)*     hook call under the rule in force
+  entry <be> <ann> <v2> <s0> <q0> <m0> <n> (<declares> <req> <lim> <mem>)*
+                       one pod through all six entry paths of the protocol package (ann = annotation shape 0..7,
+                       5 = the webhook's dump of this pod), cgroup v1/v2, initial file contents s0 q0 m0
+  cb <0|1>             rule callback (0 = node SLO, 1 = node meta) on the pod of the last `entry` as an existing pod
 Output: `upd <0|1>` per rule event; for a pod `eff <enabled> <pct>`, `pod …`, one `ctr …` per container.
 Float parts use Lean's runtime Float (IEEE binary64, as Go): |a-b| >= 0.01 and ⌈q / ratio⌉.
 -/
@@ -23,33 +28,128 @@ def showOut (tag : String) : Option Out → String
   | none => tag ++ " untouched"
   | some o => s!"{tag} {o.shares} {o.quota} {o.mem}"
 
-def stepLine (st : Rule × List String) (line : String) : Rule × List String :=
-  let (r, out) := st
+def showFVal : FVal → String
+  | .num n => toString n
+  | .max => "max"
+  | .pair q p => (if q == -1 then "max" else toString q) ++ "_" ++ toString p
+
+def showFiles (f : Files) : String := s!"{showFVal f.shares} {showFVal f.quota} {showFVal f.mem}"
+
+def showResp : Option Out → String
+  | none => "none"
+  | some o => s!"{o.shares} {o.quota} {o.mem}"
+
+def showDec : Option (List (Nat × Ctr)) → Int
+  | none => -1
+  | some m => m.length
+
+/-- the pod of the last `entry` line. -/
+structure Entry where
+  be  : Bool
+  ann : Ann
+  v2  : Bool
+  s0  : Int
+  q0  : Int
+  m0  : Int
+  pod : List (Option Ctr)
+
+structure St where
+  rule : Rule
+  out  : List String
+  last : Option Entry
+
+def annOf (code : Int) (pod : List (Option Ctr)) : Option Ann :=
+  match code with
+  | 0 => some .absent
+  | 1 => some .emptyStr
+  | 2 => some .emptyObj
+  | 3 => some .nullCtrs
+  | 4 => some .emptyCtrs
+  | 5 => some (webhookDump pod)
+  | 6 => some .invalid
+  | 7 => some .jsonNull
+  | _ => none
+
+def cfgOf (r : Rule) : Bool × Int × Cfg :=
+  let (en, pct) := r.effective
+  (en, pct, { cfs := en, ratioGt1 := pct > 100, scale := floatScale pct })
+
+def range (n : Nat) : List Nat := List.range n
+
+def runEntry (r : Rule) (e : Entry) : List String :=
+  let (en, pct, cfg) := cfgOf r
+  let k := stdConsts
+  let init := initFiles e.v2 e.s0 e.q0 e.m0
+  let nri := podFromNri e.ann
+  let prx := podFromProxy e.ann
+  let rec_ := podFromReconciler e.pod e.ann
+  let oN := podEntry k cfg e.be nri
+  let oP := podEntry k cfg e.be prx
+  let oR := podEntry k cfg e.be rec_
+  [s!"eff {b2i en} {pct}",
+   s!"pod nri {showDec nri} | {showFiles (applyOut e.v2 init oN)}",
+   s!"pod proxy {showDec prx} | {showResp oP} | {showFiles (applyOut e.v2 init oP)}",
+   s!"pod rec {if e.be then showDec rec_ else -2} | {showFiles (applyOut e.v2 init oR)}"]
+  ++ (range e.pod.length).flatMap fun i =>
+    [s!"ctr {i} nri {showResp (ctrEntry k cfg e.be (ctrFromNri e.ann i))}",
+     s!"ctr {i} proxy {showResp (ctrEntry k cfg e.be (ctrFromProxy e.ann i))}",
+     s!"ctr {i} rec {showFiles (applyOut e.v2 init (ctrEntry k cfg e.be (ctrFromReconciler e.pod e.ann i)))}"]
+
+def runCb (r : Rule) (e : Entry) (isMeta : Bool) : List String :=
+  let (_, _, cfg) := cfgOf r
+  let k := stdConsts
+  -- the harness starts the node-meta callback on cgroup v2 from an unlimited cpu.max (see the harness comment)
+  let q0 := if isMeta && e.v2 then -1 else e.q0
+  let init := initFiles e.v2 e.s0 q0 e.m0
+  [s!"cb pod {showFiles (applyQuota e.v2 init (podEntry k cfg e.be (podFromReconciler e.pod e.ann)))}"]
+  ++ (range e.pod.length).map fun i =>
+    s!"cb ctr {i} {showFiles (applyQuota e.v2 init (ctrEntry k cfg e.be (ctrFromReconciler e.pod e.ann i)))}"
+
+def stepLine (st : St) (line : String) : St :=
+  let r := st.rule
+  let emit (ls : List String) : St := { st with out := st.out ++ ls }
   match toks line with
   | ["rule", "node", p] =>
     match int? p with
-    | some pct => let (r', u) := r.step floatChanged (.nodeRatio pct); (r', out ++ [s!"upd {b2i u}"])
-    | none => (r, out ++ ["bad-op"])
-  | ["rule", "nodebad"] => let (r', u) := r.step floatChanged .nodeBad; (r', out ++ [s!"upd {b2i u}"])
+    | some pct => let (r', u) := r.step floatChanged (.nodeRatio pct); { st with rule := r', out := st.out ++ [s!"upd {b2i u}"] }
+    | none => emit ["bad-op"]
+  | ["rule", "nodebad"] => let (r', u) := r.step floatChanged .nodeBad; { st with rule := r', out := st.out ++ [s!"upd {b2i u}"] }
   | ["rule", "slo", e] =>
     match int? e with
-    | some e => let (r', u) := r.step floatChanged (.slo (e ≠ 0)); (r', out ++ [s!"upd {b2i u}"])
-    | none => (r, out ++ ["bad-op"])
+    | some e => let (r', u) := r.step floatChanged (.slo (e ≠ 0)); { st with rule := r', out := st.out ++ [s!"upd {b2i u}"] }
+    | none => emit ["bad-op"]
   | "pod" :: rest =>
     match ints? rest with
     | some (be :: hs :: n :: vals) =>
-      if vals.length ≠ 3 * n.toNat then (r, out ++ ["bad-op"]) else
+      if vals.length ≠ 3 * n.toNat then emit ["bad-op"] else
       let cs := (chunks 3 vals).filterMap fun
         | [a, b, c] => some ({ req := a, lim := b, mem := c } : Ctr)
         | _ => none
-      let (en, pct) := r.effective
-      let cfg : Cfg := { cfs := en, ratioGt1 := pct > 100, scale := floatScale pct }
-      (r, out ++ [s!"eff {b2i en} {pct}", showOut "pod" (podHook stdConsts cfg (be ≠ 0) (hs ≠ 0) cs)]
+      let (en, pct, cfg) := cfgOf r
+      emit ([s!"eff {b2i en} {pct}", showOut "pod" (podHook stdConsts cfg (be ≠ 0) (hs ≠ 0) cs)]
         ++ cs.map (fun c => showOut "ctr" (ctrHook stdConsts cfg (be ≠ 0) (hs ≠ 0) c)))
-    | _ => (r, out ++ ["bad-op"])
-  | _ => (r, out ++ ["bad-op"])
+    | _ => emit ["bad-op"]
+  | "entry" :: rest =>
+    match ints? rest with
+    | some (be :: ann :: v2 :: s0 :: q0 :: m0 :: n :: vals) =>
+      if vals.length ≠ 4 * n.toNat then emit ["bad-op"] else
+      let pod : List (Option Ctr) := (chunks 4 vals).map fun
+        | [d, a, b, c] => if d ≠ 0 then some ({ req := a, lim := b, mem := c } : Ctr) else none
+        | _ => none
+      match annOf ann pod with
+      | none => emit ["bad-op"]
+      | some a =>
+        let e : Entry := { be := be ≠ 0, ann := a, v2 := v2 ≠ 0, s0 := s0, q0 := q0, m0 := m0, pod := pod }
+        { st with out := st.out ++ runEntry r e, last := some e }
+    | _ => emit ["bad-op"]
+  | ["cb", m] =>
+    match int? m, st.last with
+    | some m, some e => emit (runCb r e (m ≠ 0))
+    | _, _ => emit ["bad-op"]
+  | _ => emit ["bad-op"]
 
-def runCase (lines : List String) : List String := (lines.foldl stepLine (Rule.init, [])).2
+def runCase (lines : List String) : List String :=
+  (lines.foldl stepLine { rule := Rule.init, out := [], last := none }).out
 
 end KoordVerif.C14
 
